@@ -3,8 +3,8 @@
    for an undefined v2 temporal / environmental score), and every severity source agrees with the
    official band of the *observed* score.
    Events: [ver, slot, repr, type, sev, jsev, attr] - the distinct observations of a recording. *)
-EXTENDS Api, Json, IOUtils
-T == JsonDeserialize(IOEnv.TRACE_FILE)
+EXTENDS Api, Json, IOUtils, TraceData
+T == TraceData
 VARIABLES i, ph
 Init == i \in 1..Len(T) /\ ph = 0
 Next == ph = 0 /\ ph' = 1 /\ i' = i
